@@ -101,7 +101,7 @@ MustRefuse(p) == UnknownIn(Present(p)) # {}
 RefsOfConstruct(f) ==
   CASE f = "dser" -> {"serde", "serde_json"}   [] f = "dde" -> {"serde", "serde_json"}
     [] f = "json" -> {"serde_json"}            [] f = "async" -> {"tokio"}
-    [] f = "web" -> {"tokio"}                  [] f = "rk_regex" -> {"regex"}
+    [] f = "rk_regex" -> {"regex"}             \* (@route handlers refer to incan_stdlib::web only)
     [] f = "rk_sj" -> {"serde_json"}           [] f = "ru" -> {"fancy_crate"}
     [] OTHER -> {}                              \* plain `import rust::c` and rust::std emit no external path
 Refs(p) ==
